@@ -79,19 +79,50 @@ pub trait PathSyntax {
         }
     }
 
+    /// Read a number as defined by the SVG path grammar: optional sign, digits with
+    /// at most one '.', optional exponent. Separators are optional wherever the next
+    /// number is self-delimiting, e.g. "10-20", ".5.5" or "1e1-2".
     fn read_number(&mut self) -> Result<f32> {
         self.check_not_end()?;
         let mut s = String::new();
+        let mut seen_digit = false;
+        let mut seen_dot = false;
+        let mut seen_exp = false;
         while let Some(ch) = self.current() {
-            if ch.is_ascii_digit() || ch == '.' || ch == '-' {
-                s.push(ch);
-                self.advance();
-            } else {
+            let part_of_number = match ch {
+                '0'..='9' => {
+                    seen_digit = true;
+                    true
+                }
+                '+' | '-' => s.is_empty() || s.ends_with(['e', 'E']),
+                '.' => !seen_dot && !seen_exp,
+                'e' | 'E' => seen_digit && !seen_exp,
+                _ => false,
+            };
+            if !part_of_number {
                 break;
             }
+            seen_dot |= ch == '.';
+            seen_exp |= ch == 'e' || ch == 'E';
+            s.push(ch);
+            self.advance();
         }
         self.skip_wsp_comma();
         Ok(s.parse()?)
+    }
+
+    /// Read an arc flag: a single '0' or '1', which need not be separated from
+    /// what follows (e.g. "a1 1 0 011 2").
+    fn read_flag(&mut self) -> Result<bool> {
+        self.check_not_end()?;
+        let flag = match self.current() {
+            Some('0') => false,
+            Some('1') => true,
+            _ => return Err(SvgdxError::ParseError("Invalid arc flag".to_string())),
+        };
+        self.advance();
+        self.skip_wsp_comma();
+        Ok(flag)
     }
 
     fn read_coord(&mut self) -> Result<(f32, f32)> {
@@ -238,8 +269,8 @@ impl PathParser {
                 // "(rx ry x-axis-rotation large-arc-flag sweep-flag x y)+"
                 let _rxy = self.tokens.read_coord()?;
                 let _xar = self.tokens.read_number()?;
-                let _laf = self.tokens.read_number()?;
-                let _sf = self.tokens.read_number()?;
+                let _laf = self.tokens.read_flag()?;
+                let _sf = self.tokens.read_flag()?;
                 let xy = self.tokens.read_coord()?;
                 self.update_position(xy);
             }
@@ -247,8 +278,8 @@ impl PathParser {
                 // "(rx ry x-axis-rotation large-arc-flag sweep-flag x y)+"
                 let _rxy = self.tokens.read_coord()?;
                 let _xar = self.tokens.read_number()?;
-                let _laf = self.tokens.read_number()?;
-                let _sf = self.tokens.read_number()?;
+                let _laf = self.tokens.read_flag()?;
+                let _sf = self.tokens.read_flag()?;
                 let (dx, dy) = self.tokens.read_coord()?;
                 let (cpx, cpy) = self.position.unwrap_or((0., 0.));
                 self.update_position((cpx + dx, cpy + dy));
